@@ -380,6 +380,28 @@ def t_ser(ctx, prog):
             k += 1
             check_ser_rows(ctx, 'T-SER.compound', '%s::%s|indefinite=%d' % (tr, meth, flagval), outs, [(exp, None)], mir.loc(inst['sp']), mm, flag_of=False)
     ctx.floor('T-SER.compound', 'method x flag', k, 30)
+    # serde's compound traits have provided methods (skip_field, ..) whose defaults serde's derive relies on: the length it
+    # announces does not count skipped fields.  An override in the bridge must therefore write nothing.
+    import re as _re
+    pat = _re.compile(r"^<minicbor_serde::.+? as serde::ser::(Serialize(?:Seq|Tuple|TupleStruct|TupleVariant|Map|Struct|StructVariant))>::(\w+)$")
+    for inst in sorted(prog.insts.values(), key=lambda i: i['path']):
+        m_ = pat.match(inst['path'])
+        if not m_ or (m_.group(1), m_.group(2)) in SEQSER_REF:
+            continue
+        tr, meth = m_.group(1), m_.group(2)
+        try:
+            r_ = l2.run_root(prog, inst, ov)
+        except Abort as e:
+            ctx.fail_closed('T-SER.compound', 'override %s::%s cannot be summarised: %s' % (tr, meth, e))
+            continue
+        outs = r_[1] if r_ else []
+        wrote = [o for o in outs if l2.items_of(o.st.events)]
+        if meth in ('skip_field',) and not wrote:
+            ctx.ok('T-SER.compound', '%s::%s|override writes nothing' % (tr, meth))
+        elif meth in ('skip_field',):
+            ctx.violation('T-SER.compound', '%s::%s|override' % (tr, meth), 'the bridge overrides %s::%s and writes %s: serde leaves skipped fields out of the announced length, so the map header no longer matches its entries' % (tr, meth, [item_key(i) for i in l2.items_of(wrote[0].st.events)]), mir.loc(inst['sp']))
+        else:
+            ctx.violation('T-SER.compound', '%s::%s|override' % (tr, meth), 'the bridge overrides the provided method %s::%s, which has no row in the reference table (review its output and add the row)' % (tr, meth), mir.loc(inst['sp']))
 
 
 # ---------------------------------------------------------------------------
